@@ -154,6 +154,12 @@ class ConcreteCtx(BaseCtx):
         return v
     def bytes(self, name, n):
         return bytes(self.int('%s[%d]' % (name, i), 0, 255) for i in range(n))
+    def tail(self, name):
+        # the token selects a concrete message: length token % 97, contents from a generator seeded with the token
+        t = self.int(name + '#', 0, (1 << 64) - 1)
+        import random as _r
+        g = _r.Random(t)
+        return bytes(g.randrange(256) for _ in range(t % 97))
     def call(self, f, *a, **k):
         return f(*a, **k)
     def assume(self, cond):
